@@ -287,7 +287,7 @@ def run(ck, prog, ctx):
     # `child_of` are strict (a term is not its own ancestor); deciding the error with one of them alone refuses the root itself as a leaf.
     from engines import private_scope as _psv, error_blocks as _eb
     for xb in [sub] + [y for y in _psv(prog, sub) if y.id != sub.id and y.kind in ("Fn", "AssocFn")]:
-        if not _eb(xb):
+        if not _eb(xb) and not any(_eb(f_) for f_ in prog.family(xb)):
             continue
         for fb in prog.family(xb):
             strict = [(bi, t) for bi, t in fb.calls() if (t.callee.res or "").endswith(("HpoTerm::<'a>::parent_of", "HpoTerm::<'a>::child_of")) and len(t.args) == 2]
@@ -295,7 +295,7 @@ def run(ck, prog, ctx):
                 continue
             has_eq = any(t2.callee.trait == "std::cmp::PartialEq" and t2.callee.method in ("eq", "ne") and re.search(r"HpoTerm|HpoTermId", t2.callee.def_args or "") for _, t2 in fb.calls())
             # the test is a validity test when its result decides (directly, or as the predicate of all / any) about an error exit of xb
-            decides = fb is not xb and any(t3.callee.method in ("all", "any", "find", "position") and pv.closure_of_operand(xb, t3.args[-1]) == fb.id for _, t3 in xb.calls() if t3.args) or (fb is xb)
+            decides = fb is not xb and any(t3.callee.method in ("all", "any", "find", "position") and pv.closure_of_operand(xb, t3.args[-1]) == fb.id for _, t3 in xb.calls() if t3.args) or (fb is xb) or bool(_eb(fb))  # ... or the closure builds the error itself (`map(|leaf| if root.parent_of(&leaf) { Ok(leaf) } else { Err(..) })`)
             if decides:
                 bi, t = strict[0]
                 ck.ob("ROLE", "leaf-validity/%s" % xb.short, has_eq, "%s decides whether a leaf is acceptable with `%s`%s" % (xb.short, t.callee.method, " together with an equality test (inclusive)" if has_eq else " alone: a strict relation, so the root itself is refused as a leaf (the property admits `root or a descendant of root`)"), where=fb.where(t.line))
